@@ -1,4 +1,4 @@
-import TarsModel.Proofs.ClientConnAdmits
+import TarsModel.Proofs.ClientConnHealthy
 import TarsModel.Proofs.AdapterPush
 
 /-!
@@ -368,6 +368,50 @@ theorem C11_histories (cap limit : Nat) (idle : Bool) (h : List Event) (q f n : 
   obtain ⟨s', t⟩ := admits_sound ha
   obtain ⟨s, t1, hc, hn, _, _, _⟩ := trace_probe_last t
   exact ⟨s, t1, hn, (reachable_inv_repaired (trace_reachable t1 (reachable_start idle))).closedKnown, hc⟩
+
+/-! ## `ReConnect` holds the lock from the test of the flag to the installation -/
+
+/-- With the idle close out of reach (runs from `initNoIdle`), for both variants and every
+interleaving of any number of concurrent callers: the client only ever closes a connection the
+server has left — `ReConnect` tests the flag, dials and installs the new connection in ONE step
+under `connLock`, so two callers that both find the client closed cannot both dial, and nothing but
+`close(conn)` (after a read or write error) closes a socket. -/
+theorem C11_no_healthy_close (v : Variant) (cap : Nat) (acts : List Action) (s : State)
+    (hrun : runFrom v cap initNoIdle acts = some s) :
+    ∀ (k : Nat) (c : Conn), s.conns[k]? = some c → c.known = true → c.alive = false :=
+  fun k c hc hk => ((inv2_runFrom acts initNoIdle s inv2_initNoIdle hrun).conn k c hc).1 hk
+
+/-- non-vacuity: four concurrent callers on a closed client; one connection is dialled, all four
+requests are queued, the first is written to it and arrives -/
+example : ∃ s, runFrom .repaired 100 initNoIdle
+    [.callBegin 1, .callBegin 2, .callBegin 3, .callBegin 4, .callReconnect 3, .callReconnect 1,
+     .callReconnect 4, .callReconnect 2, .markReconnected 1, .markReconnected 2, .markReconnected 3,
+     .markReconnected 4, .callEnq 2, .callEnq 1, .callEnq 4, .callEnq 3,
+     .mark .top 0, .sTopGo 0, .sNoFail 0, .mark .inner 0, .sTakeQ 0, .sCheckOk 0, .mark .got 0,
+     .sWriteOk 0] = some s ∧ s.conns.length = 1 ∧ s.arrived = [(2, 0)] ∧ s.sendQ.length = 3 := by
+  refine ⟨_, by simp [runFrom, step, initNoIdle, findCall, setCall, dropCall, setConn, knownList,
+    afterDequeue, isCur]; rfl, rfl, rfl, rfl⟩
+
+/-- NOT the code as found — `ReConnect` with the dial outside the lock (flag read under the lock,
+dial unlocked, lock re-taken, new connection installed without looking at the flag again, the socket
+of the connection it replaces closed directly): two callers both find the client closed and both
+dial; caller 1 installs connection 0, its request is written there and arrives at the server; caller
+2 then installs connection 1 and closes connection 0 — a healthy connection the server still
+serves, carrying a request whose answer can now never be read (its receiver's `Read` fails: `rErr`). -/
+theorem C11_unlocked_dial_counterexample :
+    ∃ s, runFrom .repaired 100 initUnlocked
+      [.callBegin 1, .callBegin 2, .callCheckClosed 1, .callCheckClosed 2,
+       .callInstall 1, .markReconnected 1, .callEnq 1, .callRet 1,
+       .mark .top 0, .sTopGo 0, .sNoFail 0, .mark .inner 0, .sTakeQ 0, .sCheckOk 0, .mark .got 0,
+       .sWriteOk 0, .callInstall 2] = some s ∧
+      s.conns.length = 2 ∧ s.arrived = [(1, 0)] ∧ s.isClosed = false ∧
+      (∃ c, s.conns[0]? = some c ∧ c.alive = true ∧ c.known = true ∧ c.reset = false) ∧
+      (step .repaired 100 s (.rErr 0)).isSome = true ∧
+      ¬ (∀ (k : Nat) (c : Conn), s.conns[k]? = some c → c.known = true → c.alive = false) := by
+  refine ⟨_, by simp [runFrom, step, initUnlocked, findCall, setCall, dropCall, setConn, knownList,
+    afterDequeue, isCur, closeLast]; rfl, rfl, rfl, rfl, ⟨_, rfl, rfl, rfl, rfl⟩, by decide, fun h => ?_⟩
+  have := h 0 _ rfl rfl
+  cases this
 
 /-! ## The close notification (`AdapterProxy.Recv` → `onPush`, `Model/AdapterPush.lean`)
 
